@@ -27,7 +27,8 @@ CONTROLS = {
                 ("Metrics.mc.cfg", {"AsShipped_D7": "TRUE"}, "QuiescentGaugesMatch")],
     "Poll": [("Poll.mc.cfg", {"Bug": '"no_deregister"'}, "ContractHolds"),
              ("Poll.mc.cfg", {"Bug": '"no_register"'}, "ContractHolds"),
-             ("Poll.mc.cfg", {"Bug": '"no_set_on_register"'}, "ContractHolds")],
+             ("Poll.mc.cfg", {"Bug": '"no_set_on_register"'}, "ContractHolds"),
+             ("Poll.mc3.cfg", {"Bug": '"raise_fails_live"'}, "ContractHolds")],
     "Proxy": [("Proxy.mc.cfg", {"Bug": '"forward_cancel"'}, "ContractHolds"),
               ("Proxy.mc.cfg", {"Bug": '"timeout_ignored"'}, "ContractHolds")],
     "Retry": [("Retry.mc.cfg", {"Bug": '"no_inherit"'}, "ContractHolds"),
